@@ -253,6 +253,25 @@ impl SwiftField for Field54ReceiverCorrespondent {
         })
     }
 
+    fn parse_with_variant(
+        value: &str,
+        variant: Option<&str>,
+        _field_tag: Option<&str>,
+    ) -> crate::Result<Self>
+    where
+        Self: Sized,
+    {
+        match variant {
+            Some("A") => Ok(Field54ReceiverCorrespondent::A(Field54A::parse(value)?)),
+            Some("B") => Ok(Field54ReceiverCorrespondent::B(Field54B::parse(value)?)),
+            Some("D") => Ok(Field54ReceiverCorrespondent::D(Field54D::parse(value)?)),
+            Some(other) => Err(ParseError::InvalidFormat {
+                message: format!("Option {} is not supported by this field", other),
+            }),
+            None => Self::parse(value),
+        }
+    }
+
     fn to_swift_string(&self) -> String {
         match self {
             Field54ReceiverCorrespondent::A(field) => field.to_swift_string(),
